@@ -1089,27 +1089,42 @@ func extraC03(c *Ctx) {
 			c.Ob("R3.5", "ingress.EnsureRoutes#create-weight", ci.Pos(), ok, "a new canary Ingress starts with weight 0", ifs(!ok, "created with weight "+t.Args[0].Name))
 			continue
 		}
-		scaled := false
-		for x := range BackwardSlice(w) {
-			call, ok := x.(*ssa.Call)
-			if !ok || !NameMatch(CalleeName(&call.Call), "intstr.GetScaledValueFromIntOrPercent") {
+		// every definition the weight can have (followed into a helper of the repository that
+		// computes it); nil is the absent weight
+		scaled, arith := true, false
+		nDefs := 0
+		for _, lf := range LeavesDeep(Forwarded(w), ci.Block()) {
+			if lt := TermOf(lf.V); lt.Op == "const" && lt.Name == "nil" {
 				continue
 			}
-			a := call.Call.Args
-			if k1, ok1 := a[1].(*ssa.Const); ok1 && constText(k1) == "100" {
-				if k2, ok2 := a[2].(*ssa.Const); ok2 && constText(k2) == "true" && SliceHas(a[0], MField("Traffic")) {
-					scaled = true
+			nDefs++
+			sc := false
+			for x := range BackwardSlice(lf.V) {
+				call, ok := x.(*ssa.Call)
+				if !ok || !NameMatch(CalleeName(&call.Call), "intstr.GetScaledValueFromIntOrPercent") {
+					continue
+				}
+				a := call.Call.Args
+				if k1, ok1 := a[1].(*ssa.Const); ok1 && constText(k1) == "100" {
+					if k2, ok2 := a[2].(*ssa.Const); ok2 && constText(k2) == "true" && (SliceHas(a[0], MField("Traffic")) || SliceHas(a[0], func(t *Term) bool { return t.Op == "param" && t.V != nil && (t.V.Type().String() == "*string" || t.V.Type().String() == "string") })) {
+						sc = true
+					}
+				}
+			}
+			if !sc {
+				scaled = false
+			}
+			for x := range BackwardSlice(lf.V) {
+				if b, ok := x.(*ssa.BinOp); ok {
+					switch b.Op.String() {
+					case "+", "-", "*", "/", "%":
+						arith = true
+					}
 				}
 			}
 		}
-		arith := false
-		for x := range BackwardSlice(w) {
-			if b, ok := x.(*ssa.BinOp); ok {
-				switch b.Op.String() {
-				case "+", "-", "*", "/", "%":
-					arith = true
-				}
-			}
+		if nDefs == 0 {
+			scaled = false
 		}
 		c.Ob("R3.5", "ingress.EnsureRoutes#step-weight", ci.Pos(), scaled && !arith, "the weight handed to the script is strategy.traffic scaled against 100 (roundUp), with no further arithmetic", ifs(!scaled, "not GetScaledValueFromIntOrPercent(traffic, 100, true); ")+ifs(arith, "arithmetic is applied to the weight"))
 	}
@@ -1121,17 +1136,49 @@ func extraC03(c *Ctx) {
 	}
 	for _, st := range weightStores {
 		n++
-		t := TermOf(st.Val)
-		okFmt := t.Op == "call" && NameMatch(t.Name, "fmt.Sprintf") && len(t.Args) >= 1 && t.Args[0].Op == "const" && t.Args[0].Name == "%d"
-		// the *int32 weight parameter of the function that packs the input (identified by type, not name)
-		okSrc := false
-		for _, par := range st.Parent().Params {
-			if par.Type().String() == "*int32" && BackwardSlice(st.Val)[par] {
-				okSrc = true
+		// the rendering may be done by a helper: judge what the helper returns
+		okFmt, okSrc := true, true
+		var slices []map[ssa.Value]bool
+		for _, lf := range LeavesDeep(Forwarded(st.Val), st.Block()) {
+			t := TermOf(lf.V)
+			if !(t.Op == "call" && NameMatch(t.Name, "fmt.Sprintf") && len(t.Args) >= 1 && t.Args[0].Op == "const" && t.Args[0].Name == "%d") {
+				okFmt = false
+			}
+			// the *int32 weight parameter of the function that renders (identified by type, not name) …
+			sl := BackwardSlice(lf.V)
+			slices = append(slices, sl)
+			src := false
+			if in, isIn := lf.V.(ssa.Instruction); isIn {
+				for _, par := range in.Parent().Params {
+					if par.Type().String() == "*int32" && sl[par] {
+						src = true
+					}
+				}
+				// … which, when that is a helper, is fed from the packing function's own weight parameter
+				if src && in.Parent() != st.Parent() {
+					src = false
+					for _, par := range st.Parent().Params {
+						if par.Type().String() == "*int32" && BackwardSlice(st.Val)[par] {
+							src = true
+						}
+					}
+				}
+			}
+			if !src {
+				okSrc = false
 			}
 		}
+		if len(slices) == 0 {
+			okFmt, okSrc = false, false
+		}
 		bad := ""
-		for x := range BackwardSlice(st.Val) {
+		all := map[ssa.Value]bool{}
+		for _, sl := range slices {
+			for x := range sl {
+				all[x] = true
+			}
+		}
+		for x := range all {
 			if b, ok := x.(*ssa.BinOp); ok {
 				switch b.Op.String() {
 				case "+", "-", "*", "/", "%":
